@@ -5,17 +5,20 @@ import json
 from check import Result
 
 PROP = "C12"
-TARGETS = ["NetqasmVerif.Props.C12", "NetqasmVerif.Props.C12Bridge"]
+TARGETS = ["NetqasmVerif.Props.C12", "NetqasmVerif.Props.C12Bridge", "NetqasmVerif.Props.QlinkObligations"]
 M = "NetqasmVerif.Props.C12"
 THEOREMS = [(M, "NQ.C12." + n) for n in [
     "exactly_once", "exactly_once_count", "consumed_by_oldest_in_order", "consumed_by_head",
     "retired_iff_complete", "consume_effect", "keep_only_when_free", "unit_never_overwritten",
     "wait_sound", "handlePending_quiescent", "scenario_nonvacuous", "measure_overtakes_deferred_keep"]]
+MQ = "NetqasmVerif.Props.QlinkObligations"
+THEOREMS += [(MQ, "NQ.Qlink." + n) for n in ["response_conversion_copies_every_field", "basis_conversion_exact",
+                                             "bell_state_verbatim"]]
 MB = "NetqasmVerif.Props.C12Bridge"
 THEOREMS += [(MB, "NQ.C12." + n) for n in [
     "keep_handler_is_exec_keep", "handler_preserves_qubit_invariant", "measure_handler_keeps_rel",
     "handlePending_preserves_qubit_invariant", "bridge_nonvacuous"]]
-TRANSLATORS = []
+TRANSLATORS = ["epr_tables", "qlink_tables"]
 LEVEL_TEXT = ('Lean theorems over a transition system of the controller\'s EPR bookkeeping (request queues per '
               '(remote node, purpose, role), pending list, result arrays, unit modules, live subroutines; actions: '
               'instruction steps incl. create/recv/qalloc/qfree/store/wait, response delivery, poll), proved by '
@@ -43,6 +46,9 @@ TRUSTED = [
     "_wait_to_handle_epr_responses as no-op, _execute_command yielding before delegating)",
 ]
 ASSUMPTIONS = [
+    "responses reach the controller natively or as qlink-interface 1.0 objects converted by the real "
+    "response_from_qlink_1_0 (K and M; the executor converts neither R-type nor unknown objects); purpose ids "
+    "depend on (remote node, socket): harness stack remote*1000+socket",
     "the subroutine that issued a request is still live when its responses are consumed (otherwise "
     "_get_app_id raises inside the handler; the model returns 'raises' there too)",
     "requests ask for >= 1 pair and their result array holds 10*pairs entries (a 0-pair request is never retired)",
